@@ -20,15 +20,16 @@ Section Union2.
         else min_index r (S i) minDist2 minIndex
     end.
 
-  (* second loop *)
-  Fixpoint prune_loop (minf : T -> T -> T) (vm : Interval O) (minIndex : nat)
-           (ops : list (Interval O * T)) (i : nat) (first : bool) (d : T) : T :=
+  (* second loop: the operand with the closest box has been evaluated (value dm, bound b = dm*dm);
+     every other operand whose box is within the bound is evaluated and folded in *)
+  Fixpoint prune_loop (minf : T -> T -> T) (b : T) (minIndex : nat)
+           (ops : list (Interval O * T)) (i : nat) (d : T) : T :=
     match ops with
     | [] => d
     | (v, x) :: r =>
-        if Nat.eqb i minIndex || iv_overlap vm v
-        then prune_loop minf vm minIndex r (S i) false (if first then x else minf d x)
-        else prune_loop minf vm minIndex r (S i) first d
+        if negb (Nat.eqb i minIndex) && (fst v <=? b)
+        then prune_loop minf b minIndex r (S i) (minf d x)
+        else prune_loop minf b minIndex r (S i) d
     end.
 
   Fixpoint slow_loop (minf : T -> T -> T) (xs : list T) (first : bool) (d : T) : T :=
@@ -46,12 +47,23 @@ Section Union2.
     else
       let vs := map fst ops in
       let '(_, mi) := min_index vs 0 (- (o1 O)) 0%nat in
-      let vm := nth mi vs (o0 O, o0 O) in
-      prune_loop minf vm mi ops 0 true (o0 O).
+      let dm := snd (nth mi ops ((o0 O, o0 O), o0 O)) in
+      prune_loop minf (dm * dm) mi ops 0 dm.
 
-  (* the pinned commit pruned also when a blend function was installed *)
+  (* the pinned commit: pruning by overlap of the box distance intervals (also under a blend) *)
+  Fixpoint prune_loop_pinned (minf : T -> T -> T) (vm : Interval O) (minIndex : nat)
+           (ops : list (Interval O * T)) (i : nat) (first : bool) (d : T) : T :=
+    match ops with
+    | [] => d
+    | (v, x) :: r =>
+        if Nat.eqb i minIndex || iv_overlap vm v
+        then prune_loop_pinned minf vm minIndex r (S i) false (if first then x else minf d x)
+        else prune_loop_pinned minf vm minIndex r (S i) first d
+    end.
   Definition evaluate_pinned (minf : T -> T -> T) (ops : list (Interval O * T)) : T :=
-    evaluate false minf ops.
+    let vs := map fst ops in
+    let '(_, mi) := min_index vs 0 (- (o1 O)) 0%nat in
+    prune_loop_pinned minf (nth mi vs (o0 O, o0 O)) mi ops 0 true (o0 O).
 
   (* sdf.poly / PolyMin *)
   Definition poly (a b k : T) : T :=
